@@ -385,3 +385,140 @@ Definition c16_case (id : Z) (c : cfg) (es : list event) (os : list obs) (final 
   let '(d1, m1, d2, c2) := c16_run es os os' 1 (0, 0, 0, 0) in
   [id; mask; first; d1; m1; d2; c2; if class_pred_ok raw then 1 else 0;
    Z.of_nat (List.length (filter (fun e => match event_obj e with Some (_, false) => true | _ => false end) es))].
+
+(* ---- C05: every resource not serving traffic has been told why; active ones are not ---- *)
+
+Inductive report := ROk (with_warnings : bool) | RRejected | RProblem (is_error : bool) (reason : string).
+
+Definition is_ok (r : report) : bool := match r with ROk _ => true | _ => false end.
+
+Definition nonempty {A} (l : list A) : bool := match l with [] => false | _ => true end.
+
+(* processChanges: what the controller reports for one change.  [in_cluster k] = the object still
+   exists in the informer store (a delete change of an object that is gone is not reported). *)
+Definition reports_of_change (in_cluster : string -> bool) (c : change) : list (string * report) :=
+  let r := c_res c in
+  match c_op c with
+  | AddOrUpdate =>
+      (rkey r, ROk (nonempty (res_warnings r))) ::
+      match r with
+      | RIng ic => map (fun m => ("Ingress/" ++ key_of_ing (mc_ing m),
+                                  ROk (nonempty (get [] (key_of_ing (mc_ing m)) (ic_child_warnings ic))))) (ic_minions ic)
+      (* routes synthesised from cert-manager challenge Ingresses (no UID) are not cluster objects *)
+      | RVS vc => map (fun x => (vsr_pkey x, ROk false))
+                      (filter (fun x => negb (String.eqb (m_uid (r_meta x)) "")) (vc_vsrs vc))
+      | RTS _ => []
+      end
+  | Delete =>
+      if in_cluster (rkey r) && (c_err c || nonempty (res_warnings r)) then [(rkey r, RRejected)] else []
+  end.
+
+Definition reports_of_step (in_cluster : string -> bool) (ob : obs) : list (string * report) :=
+  flat_map (reports_of_change in_cluster) (ob_changes ob) +++
+  map (fun p => (p_obj p, RProblem (p_is_error p) (p_reason p))) (ob_problems ob).
+
+(* the cluster as the informers see it: last upsert per object, whatever its class or validity *)
+Definition cluster_apply (cl : smap event) (e : event) : smap event :=
+  match e with
+  | EIng i _ _ => insert (ing_rkey i) e cl
+  | EVS v _ _ => insert (vs_rkey v) e cl
+  | EVSR r _ _ => insert (vsr_pkey r) e cl
+  | ETS t _ _ => insert (ts_rkey t) e cl
+  | EDelIng k => remove ("Ingress/" ++ k) cl
+  | EDelVS k => remove ("VirtualServer/" ++ k) cl
+  | EDelVSR k => remove ("VirtualServerRoute/" ++ k) cl
+  | EDelTS k => remove ("TransportServer/" ++ k) cl
+  | _ => cl
+  end.
+
+Definition owns_some_host (ob : obs) (k : string) : bool := existsb (fun hv => String.eqb (snd hv) k) (ob_hosts ob).
+Definition owns_some_listener (ob : obs) (k : string) : bool := existsb (fun hv => String.eqb (snd hv) k) (ob_lhosts ob).
+
+Definition attached_minion (ob : obs) (mk : string) : option bool :=   (* Some has_valid_path if attached *)
+  match filter_map (fun r => match r with
+                             | RIng ic => match filter (fun m => String.eqb (key_of_ing (mc_ing m)) mk) (ic_minions ic) with
+                                          | m :: _ => Some (nonempty (true_paths m))
+                                          | [] => None end
+                             | _ => None end) (ob_res ob) with
+  | b :: _ => Some b
+  | [] => None
+  end.
+
+Definition attached_vsr (ob : obs) (r : vsroute) : bool :=
+  existsb (fun x => match x with
+                    | RVS vc => existsb (fun y => eqb_of vsroute_dec y r) (vc_vsrs vc)
+                    | _ => false end) (ob_res ob).
+
+(* 0 = the last report about the object is truthful; 1 = active but last report is not a success;
+   2 = not applied but last report is a success (or there is none); 3 = attached minion without any
+   valid path whose last report carries no warning *)
+Definition truthful (cf : cfg) (ob : obs) (last : smap report) (k : string) (e : event) : Z :=
+  let rep := lookup k last in
+  let want_ok (active : bool) : Z :=
+    match rep with
+    | Some r => if active then (if is_ok r then 0 else 1) else (if is_ok r then 2 else 0)
+    | None => if active then 1 else 2
+    end in
+  match e with
+  | EIng i true valid =>
+      if cert_manager cf && i_challenge i then 0
+      else if negb valid then want_ok false
+      else if is_minion i then
+        match attached_minion ob (key_of_ing i) with
+        | Some true => want_ok true
+        | Some false => match rep with Some (ROk true) => 0 | Some (ROk false) => 3 | Some _ => 0 | None => 3 end
+        | None => want_ok false
+        end
+      else want_ok (owns_some_host ob k)
+  | EVS v true valid => if negb valid then want_ok false else want_ok (owns_some_host ob k)
+  | EVSR r true valid => if negb valid then want_ok false else want_ok (attached_vsr ob r)
+  | ETS t true valid =>
+      if negb valid then want_ok false
+      else want_ok (owns_some_host ob k || owns_some_listener ob k)
+  | _ => 0
+  end.
+
+(* the validation error of the object being processed is reported in this very step *)
+Definition error_reported (e : event) (ob : obs) : bool :=
+  match event_obj e with
+  | Some (k, true) =>
+      let invalid := match e with EIng _ _ v | EVS _ _ v | EVSR _ _ v | ETS _ _ v => negb v | _ => false end in
+      negb invalid ||
+      existsb (fun c => String.eqb (rkey (c_res c)) k && c_err c) (ob_changes ob) ||
+      existsb (fun p => String.eqb (p_obj p) k && p_is_error p) (ob_problems ob)
+  | _ => true
+  end.
+
+(* returns (step, code, object index) of the first untruthful accumulated report; code 9 = validation error not reported *)
+Fixpoint c05_run (cf : cfg) (cl : smap event) (last : smap report) (es : list event) (os : list obs) (i : Z) : Z * Z :=
+  match es, os with
+  | e :: er, ob :: orest =>
+      let cl' := cluster_apply cl e in
+      let last' := fold_left (fun m kr => insert (fst kr) (snd kr) m) (reports_of_step (fun k => mem k cl') ob) last in
+      if negb (error_reported e ob) then (i, 9)
+      else
+        match filter_map (fun kv => let d := truthful cf ob last' (fst kv) (snd kv) in if d =? 0 then None else Some d) cl' with
+        | d :: _ => (i, d)
+        | [] => c05_run cf cl' last' er orest (i + 1)
+        end
+  | _, _ => (0, 0)
+  end.
+
+Definition c05_case (id : Z) (c : cfg) (es : list event) (os : list obs) (final : obs)
+           (alts : list (list event * obs)) : list Z :=
+  let '(mask, first, s) := compare_run c init es os 1 0 0 in
+  let '(step_, code) := c05_run c [] [] es os 1 in
+  [id; mask; first; step_; code; Z.of_nat (List.length es)].
+
+(* debugging aid: the objects whose last report is not truthful at the first failing step *)
+Fixpoint c05_who (cf : cfg) (cl : smap event) (last : smap report) (es : list event) (os : list obs) : list (string * Z) :=
+  match es, os with
+  | e :: er, ob :: orest =>
+      let cl' := cluster_apply cl e in
+      let last' := fold_left (fun m kr => insert (fst kr) (snd kr) m) (reports_of_step (fun k => mem k cl') ob) last in
+      match filter_map (fun kv => let d := truthful cf ob last' (fst kv) (snd kv) in if d =? 0 then None else Some (fst kv, d)) cl' with
+      | [] => c05_who cf cl' last' er orest
+      | l => l
+      end
+  | _, _ => []
+  end.
